@@ -33,6 +33,20 @@ var Solvers = []SolverCfg{
 	}},
 }
 
+// SolversWide adds differently seeded runs of z3 to the race: quantified goals that one search order misses are
+// usually found at once by another (used for the last attempt and for retries only).
+var SolversWide = append(append([]SolverCfg{}, Solvers...),
+	SolverCfg{"z3-new-5.1.0 seed 11", func(f string, t int) []string {
+		return []string{"z3-new", fmt.Sprintf("-T:%d", t), "smt.random_seed=11", "sat.random_seed=11", f}
+	}},
+	SolverCfg{"z3-new-5.1.0 seed 29", func(f string, t int) []string {
+		return []string{"z3-new", fmt.Sprintf("-T:%d", t), "smt.random_seed=29", "sat.random_seed=29", f}
+	}},
+	SolverCfg{"z3-new-5.1.0 seed 47", func(f string, t int) []string {
+		return []string{"z3-new", fmt.Sprintf("-T:%d", t), "smt.random_seed=47", "sat.random_seed=47", f}
+	}},
+)
+
 // Script of an obligation.
 func (o *Obligation) Script(getValues []*Term) string { return o.script(getValues, false) }
 
@@ -219,7 +233,7 @@ func Discharge(obls []*Obligation, dir string, timeoutS, workers int) []Result {
 				}
 			}
 			if v.Status != "sat" && v.Status != "unsat" {
-				v = RunQuery(script, dir, fmt.Sprintf("%sq%04d", pfx, i), timeoutS, Solvers)
+				v = RunQuery(script, dir, fmt.Sprintf("%sq%04d", pfx, i), timeoutS, SolversWide)
 			}
 			res[i].V = v
 			res[i].OK = v.Status == o.Expect
